@@ -259,3 +259,33 @@ func (w *WaitGroup) Wait() {
 	}
 	simrt.Block("WaitGroup.Wait", func() bool { return w.n == 0 })
 }
+
+// Pool is a deterministic stand-in for sync.Pool: a LIFO stack that never drops
+// items on its own (sync.Pool's eviction and per-P caches are not seedable).
+type Pool struct {
+	New   func() any
+	items []any
+	real  sync.Mutex
+}
+
+func (p *Pool) Get() any {
+	simrt.Yield("Pool.Get")
+	p.real.Lock()
+	defer p.real.Unlock()
+	if n := len(p.items); n > 0 {
+		x := p.items[n-1]
+		p.items = p.items[:n-1]
+		return x
+	}
+	if p.New != nil {
+		return p.New()
+	}
+	return nil
+}
+
+func (p *Pool) Put(x any) {
+	simrt.Yield("Pool.Put")
+	p.real.Lock()
+	p.items = append(p.items, x)
+	p.real.Unlock()
+}
